@@ -18,3 +18,13 @@ Definition errno_eqb (a b : errno) : bool :=
   | EOTHER x, EOTHER y => N.eqb x y
   | _, _ => String.eqb (ename a) (ename b)
   end.
+
+(* errno numbers of the host (Linux), used only to decode fault scripts of the
+   correspondence cases; checked against <errno.h> by harness/h_probe (consts) *)
+Local Open Scope N_scope.
+Definition errno_of_N (n : N) : errno :=
+  match n with
+  | 22 => EINVAL | 12 => ENOMEM | 61 => ENODATA | 84 => EILSEQ | 4 => EINTR | 11 => EAGAIN
+  | 74 => EBADMSG | 71 => EPROTO | 14 => EFAULT | 16 => EBUSY | 32 => EPIPE | 5 => EIO
+  | 2 => ENOENT | 34 => ERANGE | 75 => EOVERFLOW | _ => EOTHER n
+  end.
